@@ -344,6 +344,9 @@ def main(argv):
             return replay(prop, rp)
         if prop in RT_PROPS:
             rep = run_rt(prop, tier)
+            if prop == "C09" and rep.get("subjects", 0) > 0:
+                import ccengine
+                ccengine.run_c09x(tier, rep)
             return finish(prop, tier, rep, t0, RT_ASSUMPTIONS)
         if prop in CC_PROPS:
             import ccengine
